@@ -4,7 +4,8 @@
 (* validated against SM83!Exec. Events of one scenario are independent: the  *)
 (* driver sets the registers before each of them.                            *)
 (*                                                                           *)
-(*  [1, pre, [op,b1,b2], bus, post, n]                                       *)
+(*  [1, pre, [op,b1,b2], bus, post, n, run]                                  *)
+(*       run: 1 halted + 2 stopped + 4 halt bug armed, after the unit          *)
 (*       pre/post: [a,f,b,c,d,e,h,l,sp,pc]; bus: [[cycle, rw, addr, val]..]  *)
 (*       as the CPU performed them through the mapper (reads carry the value *)
 (*       the real decoder returned); n: machine cycles to the next boundary. *)
@@ -57,6 +58,8 @@ Check1(e) ==
           /\ Does("C02") =>
                /\ e[6] = CyclesDoc(op, IF op = 203 THEN b1 ELSE 0, pre.f)   \* machine cycles to the next boundary
                /\ e[6] = res.n
+          \* the CPU goes on fetching: only HALT (IME clear and nothing pending in these units) leaves it idle
+          /\ (Len(e) >= 7 /\ (Does("C01") \/ Does("C02"))) => e[7] = (IF op = 118 THEN 1 ELSE 0)
           /\ Does("C03") =>
                {<<a[1], a[2], a[3]>> : a \in res.acc} = {<<a[1], a[2], a[3]>> : a \in data}      \* the cycle of every data access
 
